@@ -5,7 +5,7 @@ from . import corecommon as cc
 from . import c04
 from zx import term as tm
 from zx.term import K, T
-from zx.walk import Walker, Agg, Ref, EffectResult, UNIT, SymObj
+from zx.walk import Walker, Agg, Ref, EffectResult, UNIT, SymObj, Opaque
 
 LEVEL = "other"
 
@@ -141,8 +141,10 @@ def beam_map(chk, prog, names, m):
     first, line_len, frame = MACH[m]
     w = Walker(prog)
     st = w.new_state()
-    b = w.materialise(SymObj("border", ("adt", BORDER, (FB,))), st)
-    b = b.with_field(prog.field_index(BORDER, "machine"), cc.machine_value(prog, names, m))
+    # the border device as its constructor configures it for this machine (the model itself, or values precomputed from
+    # it), everything else symbolic
+    b, _cfg = cc.configured_object(prog, w, st, BORDER, (FB,), "ZXBorder::<FB>::new", [cc.machine_value(prog, names, m), Opaque("ctx")],
+                                    "border", {"FB": FB})
     st.store[("h", "border")] = b
     fn = prog.fn(prog.fn_path("rustzx_core", "ZXBorder::<FB>::next_border_pixel"))
     rs = w.run(fn, [Ref(("h", "border"), (), False), tm.sym("T", 64)], genv={"FB": FB}, state=st)
